@@ -33,7 +33,8 @@ SITES = [
 ]
 REQUIRED_COUNTERS = (
     ["outcome.ok", "outcome.ValidationError", "parse.ok", "parse.hostile_schemas", "depth.judged", "parse.raw_hostile_titles", "parse.beyond_recursion_budget",
-     "value.huge_int", "value.int_beyond_str_limit", "schema.int_beyond_str_limit", "huge.outcome.ValidationError", "value.extreme_float", "value.surrogate", "value.nul", "value.long_string"]
+     "value.huge_int", "value.int_beyond_str_limit", "schema.int_beyond_str_limit", "huge.outcome.ValidationError", "value.extreme_float", "value.surrogate", "value.nul", "value.long_string",
+     "work.calls_measured", "parse.deep_schema_beyond_100"]
     + [f"site.{s}" for s in SITES]
 )
 
